@@ -333,3 +333,22 @@ def normalise_locals(func: ast.AST, ref: dict[str, list[str]]) -> tuple[dict[str
         if _try_inline(func, n_new, defs):
             inlined.append(n_new)
     return mapping, inlined
+
+
+
+def canonicalise_tests(tree: ast.AST) -> int:
+    """``if not c: A else: B`` -> ``if c: B else: A`` (also for conditional expressions), so that guard-clause and
+    nested styles, and a test and its negation with swapped branches, give the same branch conditions."""
+    n = 0
+    for node in ast.walk(tree):
+        if isinstance(node, ast.If) and isinstance(node.test, ast.UnaryOp) and isinstance(node.test.op, ast.Not):
+            node.test = node.test.operand
+            body, orelse = node.body, node.orelse
+            node.body = orelse or [ast.copy_location(ast.Pass(), node)]
+            node.orelse = body
+            n += 1
+        elif isinstance(node, ast.IfExp) and isinstance(node.test, ast.UnaryOp) and isinstance(node.test.op, ast.Not):
+            node.test = node.test.operand
+            node.body, node.orelse = node.orelse, node.body
+            n += 1
+    return n
